@@ -6,11 +6,12 @@ META = dict(
     engine="E4",
     level="model_checking",
     text="PeerPunish.tla transcribes the punishment rules of net_processing.cpp as a decision table: Effect (what ProcessMessage does with each "
-         "of 74 message content classes: nothing / Misbehaving() incl. MaybePunishNodeForBlock and every other call site / direct disconnect for a "
+         "of 81 message content classes: nothing / Misbehaving() incl. MaybePunishNodeForBlock and every other call site / direct disconnect for a "
          "protocol violation, with RejectIncomingTxs as a dimension) composed with Punish (MaybeDiscourageAndDisconnect: noban, manual, local). "
          "TLC checks the three sentences of C36 on every transition of the table (6 connection types x noban x relay permission x local "
-         "address x fRelay x sendcmpct x blocks-only mode x class = 28,416 rows) and on every sequence of three messages (high-bandwidth "
-         "compact-block state and blocks in flight carried along). The rows and TLC-simulated three-message sequences are replayed on a real "
+         "address x fRelay x sendcmpct x blocks-only mode x class = 31,104 rows), on every second message of a peer that is a high-bandwidth "
+         "compact-block peer or has a stored, not yet validated block (the sender is remembered in blockSource until the block is validated: on receipt, when "
+         "its parent arrives, or at a later reorganisation), and on every sequence of three messages. The rows and TLC-simulated three-message sequences are replayed on a real "
          "PeerManager + ConnmanTestMsg + BanMan on a fresh regtest node per test: the peer is created and handshaken as in the repository's "
          "tests, every class is realised as real serialized bytes (signed segwit transactions, hand-built valid / mutated / invalid blocks, "
          "headers with invalid proof of work, forged compact blocks, oversized and undecodable payloads) pushed through the peer's transport, "
@@ -35,6 +36,8 @@ EXPECT_DIAG = {
     "blk_missing_inputs": r"missingorspent", "blk_badsig": r"block-script-verify-flag-failed", "blk_cb_height": r"bad-cb-height",
     "blk_time_old": r"time-too-old", "blk_time_future": r"time-too-new", "blk_unknown_prev": r"prev-blk-not-found", "blk_invalid_prev": r"bad-prevblk",
     "blk_cached_invalid": r"duplicate-invalid", "blk_lowwork": r"too-little-chainwork",
+    "blk_child_first_bad": r"stored:child", "blk_child_first_ok": r"stored:child", "blk_side_first_bad": r"stored:side", "blk_side_first_ok": r"stored:side",
+    "blk_parent_arrives": r"bad-cb-amount", "blk_parent_from_elsewhere": r"bad-cb-amount", "blk_side_extended": r"bad-cb-amount",
 }
 
 
@@ -146,9 +149,27 @@ def run(ctx):
     hbt = [to_test(t["init"], t["steps"]) for t in vflib.Graph(edges).edge_tests() if len(t["steps"]) == 2]
     if not hbt:
         raise vflib.InfraError("no high-bandwidth sequences")
+    # a stored block that is validated by the second message (parent arrives / side branch extended): its own strata
+    deferred = [t for t in hbt if t["msgs"][0].endswith(("_first_bad", "_first_ok")) and t["msgs"][1] in ("blk_parent_arrives", "blk_parent_from_elsewhere", "blk_side_extended")
+                and (t["msgs"][0].startswith("blk_child") == t["msgs"][1].startswith("blk_parent"))]
+    if not any(t["flags"][2]["must"] for t in deferred):
+        raise vflib.InfraError("vacuity: no deferred-validation sequence with a must-punish step")
     if quick:
-        hbt = [t for i, t in enumerate(sorted(hbt, key=lambda t: hashlib.sha1(("%d|%s" % (ctx.seed, vflib.canon(t))).encode()).hexdigest())) if i < 120]
-    ctx.log("high-bandwidth sequences: %d" % len(hbt))
+        best = {}
+        for t in deferred:
+            k = (t["msgs"][0], t["msgs"][1], t["peer"]["conn"], t["peer"]["noban"], t["mode"])
+            h = hashlib.sha1(("%d|%s" % (ctx.seed, vflib.canon(t))).encode()).hexdigest()
+            if k not in best or h < best[k][0]:
+                best[k] = (h, t)
+        dset = set(vflib.canon(t) for t in deferred)
+        others = [t for t in hbt if vflib.canon(t) not in dset]
+        others = [t for i, t in enumerate(sorted(others, key=lambda t: hashlib.sha1(("%d|%s" % (ctx.seed, vflib.canon(t))).encode()).hexdigest())) if i < 120]
+        hbt = [v[1] for _, v in sorted(best.items(), key=lambda kv: str(kv[0]))] + others
+    ctx.extra["deferred_validation_sequences"] = len(deferred)
+    for t in hbt:
+        if t["flags"][2]["must"]:
+            ctx.nontrivial.add(vflib.digest(t))
+    ctx.log("second-level sequences (high-bandwidth state / stored block validated later): %d" % len(hbt))
     hb_before = stats["hb"]
     replay(ctx, binary, hbt, "hb", stats)
     ctx.extra["differences_only_on_shared_node"] = stats["shared_only"][:10]
